@@ -64,12 +64,14 @@ char *a_str_exit(a_str *ctx)
 int a_str_setm_(a_str *ctx, a_size mem)
 {
     char *ptr;
-    mem = a_size_up(sizeof(void *), mem);
-    ptr = (char *)a_alloc(ctx->ptr_, mem);
-    if (ptr || mem == 0)
+    a_size const siz = a_size_up(sizeof(void *), mem);
+    if (siz < mem) { return A_OMEMORY; } /* rounding up overflowed */
+    ptr = (char *)a_alloc(ctx->ptr_, siz);
+    if (ptr || siz == 0)
     {
         ctx->ptr_ = ptr;
-        ctx->mem_ = mem;
+        ctx->mem_ = siz;
+        if (ctx->num_ > siz) { ctx->num_ = siz; }
         return A_SUCCESS;
     }
     return A_OMEMORY;
